@@ -1,4 +1,5 @@
 import TcheranVerif.Proofs.LegalPos
+import TcheranVerif.Proofs.GenerateNodup
 import TcheranVerif.Props.C07
 /-!
 # C01 — legal move generation is exact
@@ -22,8 +23,9 @@ not attacked afterwards). All statements are for **every** position, not a sampl
 
 The two slider lookups enter through `SliderTables`; the `_tables` corollaries discharge it with
 `Props.C07` and therefore inherit that file's one `native_decide` (the 107,648-case table sweep).
-"None listed twice" (duplicate-freeness of the generated list) is not mechanised: partial; it is decided
-by the `moves` stream on every sampled position.
+* `generate_nodup` — no move occurs twice in what the two stages return (each stage is duplicate-free by
+  construction; the sixteen stages are told apart by mover, flag and shape of the move).
+Not proved: that positions of real games never hold more than 218 legal moves (the `MoveList` capacity).
 -/
 namespace Tcheran.Props.C01
 open Tcheran Tcheran.Board Tcheran.Rules
@@ -45,6 +47,13 @@ theorem generate_exact (T : SliderTables) (g : Game) (k : Sq) (h : PosH g k) :
     ∃ caps cache quiets, generateCaptures g = some (caps, cache) ∧ generateQuiets g cache = some quiets ∧
       ∀ m, m ∈ caps ++ quiets ↔ m ∈ legalMoves (ofGame g) :=
   Tcheran.generate_exact T g k h
+
+/-- **none listed twice** -/
+theorem generate_nodup (T : SliderTables) (g : Game) (k : Sq) (h : PosH g k)
+    (caps : List Move) (cache : MovegenCache) (quiets : List Move)
+    (hcaps : generateCaptures g = some (caps, cache)) (hquiets : generateQuiets g cache = some quiets) :
+    (caps ++ quiets).Nodup :=
+  Tcheran.generate_nodup T g k h caps cache quiets hcaps hquiets
 
 /-- the same from the decidable `Legal` predicate -/
 theorem generate_exact_legal (T : SliderTables) (g : Game) (hc : Consistent g.board)
@@ -121,6 +130,7 @@ end Tcheran.Props.C01
 #print axioms Tcheran.Props.C01.attacked_verdict
 #print axioms Tcheran.Props.C01.check_verdict
 #print axioms Tcheran.Props.C01.generate_exact
+#print axioms Tcheran.Props.C01.generate_nodup
 #print axioms Tcheran.Props.C01.generate_exact_legal
 #print axioms Tcheran.Props.C01.generateLegal_exact
 #print axioms Tcheran.Props.C01.check_verdict_legal
